@@ -106,3 +106,18 @@ package util
 //@   // ... and the top-level setting when no level has one
 //@   ensures up(path, 0) == path && (forall k int {up(path, k)} :: k >= 0 && up(path, k) == "" && (forall j int {up(path, j)} :: 0 <= j && j < k ==> up(path, j) != "" && !(cfgString(sprintf("%s.%s", up(path, j), variable)) != "")) ==> result == cfgBool(variable))
 //@   modifies nothing
+//@
+//@ // ---- C08: Scatter hands out chunks that partition [0, inputLen) ----
+//@ extern runtime.GOMAXPROCS
+//@   ensures result >= 1
+//@
+//@ func calculateExtentSize
+//@   requires items >= 1
+//@   ensures result >= 1
+//@   modifies nothing
+//@
+//@ func Scatter
+//@   // the k-th worker gets the k-th extent: consecutive, non-empty, inside the input, the last one reaching its end
+//@   at call go: assert arg0 == worker * extentSize && arg1 >= 1 && arg0 + arg1 <= inputLen && (arg1 == extentSize || arg0 + arg1 == inputLen)
+//@   loop 1
+//@     invariant extentSize >= 1 && inputLen >= 1 && workers >= 1 && (workers - 1) * extentSize < inputLen && inputLen <= workers * extentSize
